@@ -9,7 +9,19 @@ only a small fraction of the document's tokens, asks the input callback for only
 the text, and the new tree shares the overwhelming majority of its nodes (same node identity) with
 the old tree.  The fractions do not grow with document size."
 
-Clause map (the quantitative clauses are runtime behaviour and are MEASURED and judged against
+CLAUSE-BY-CLAUSE MAP (property text → theorems; PROVED on the model / PARTIAL (hypothesis and how
+often it holds on real data) / JUDGED ONLY on the real runtime, Judge.lean + checks/c12.py)
+
+| phrase of the property | theorems / judge clause | status |
+|---|---|---|
+| "a large error-free document receives a single small edit" | premise of every case: `incr_error = scratch_error = 0`, incremental s-expression = scratch s-expression (`judgeCase`) | JUDGED (setup) |
+| "the re-parse lexes only a small fraction of the document's tokens" | `lex_calls_bound` (C01 machine: lexed ≤ consumed − reused), `reparse_work_bound_partial` (uncovered nodes of the new tree ≤ (h+1)(w+λ+2)+Z+stray), `gate_state_test_partial` (C01: the gate's state test succeeds everywhere after a same-kind replacement) | PARTIAL: premise `stray = 0` holds in 0 of 84 evaluated re-parses (fragile repeat spine), `uncovered − stray` is 10–30; measured fraction JUDGED against thresholds |
+| "asks the input callback for only a small part of the text" | bytes served by the counting 4-byte-chunk callback | JUDGED ONLY |
+| "the new tree shares the overwhelming majority of its nodes (same node identity)" | on the edit: `edit_same_or_marked`, `unmarked_shared` (every unmarked subtree IS the old value), `marked_bound`, `marked_upper`, `rebuilt_kid_reaches`, `marked_fanout_bound`, `marked_total_bound_partial` (rebuilt nodes ≤ (h+1)(w+λ+2)+Z); on the re-parse: `reparse_work_bound_partial` | edit level PROVED (hypotheses `tiles`, `noCol`: evaluated, hold on every real tree); re-parse level PARTIAL (stray); fractions JUDGED (all heap nodes / visible nodes) |
+| "The fractions do not grow with document size" | no term of `marked_total_bound_partial` / `reparse_work_bound_partial` depends on the document size except through `height`; `balanced` (repeat chains ≤ 2·log₂+4 deep) | bound PROVED, `balanced` and the growth comparison (≤ 1.5× + 1 %) JUDGED |
+| quantifier "calibrated zoo grammars, 10^3..10^5 tokens, single-token edits at every relative position" | lst, arith, jsonish, stmt, cdecl (GLR), pyish, markscan, declscan × 10^3, 10^4 (thorough 10^5) × 6 positions | JUDGED |
+
+Details per group of theorems
 committed thresholds — see Judge.lean and checks/c12.py; what is proved is why the amount of work
 is bounded by the edit, on the model of `ts_subtree_edit` that C10 ties to the code):
 * "the edit marks only the touched path" — `marked_bound`: every subtree that `editTree` does not
